@@ -31,6 +31,14 @@ public:
     const GeneralForceSubsystem& fs; bool posOnly; int nb; uint64_t seed; ThrowCtl* tc; mutable DiscreteVariableIndex ix;
 };
 
+// event witnesses: functions of q (Position), u (Velocity) and of a force parameter (Dynamics)
+class WitHandler : public TriggeredEventHandler {
+public:
+    WitHandler(Stage st, std::function<Real(const State&)> f) : TriggeredEventHandler(st), f(f) {}
+    Real getValue(const State& s) const override { return f(s); }
+    void handleEvent(State&, Real, bool&) const override {}
+    std::function<Real(const State&)> f;
+};
 struct Elem { std::string kind; Force f; const HForce* h = nullptr; };
 
 struct C16 : vf::Engine {
@@ -79,6 +87,13 @@ struct C16 : vf::Engine {
         Sys() : matter(sys), forces(sys), gravity(forces, matter, -YAxis, 9.8) {}
     };
 
+    void addWitnesses(Sys& S) {
+        S.sys.addEventHandler(new WitHandler(Stage::Position, [](const State& s) { return s.getNQ() ? std::sin(s.getQ()[0]) + 0.3 * s.getQ()[s.getNQ() - 1] - 0.1 : 0.0; }));
+        S.sys.addEventHandler(new WitHandler(Stage::Velocity, [](const State& s) { return s.getNU() ? s.getU()[0] - 0.2 * s.getU()[s.getNU() - 1] + 0.05 * s.getTime() : 0.0; }));
+        const HForce* hf = nullptr; for (auto& e : S.elems) if (e.h) { hf = e.h; break; }
+        if (hf) S.sys.addEventHandler(new WitHandler(Stage::Dynamics, [hf](const State& s) { return hf->getParam(s) - 1.7; }));
+        MultibodySystem* sys = &S.sys; S.sys.addEventHandler(new WitHandler(Stage::Acceleration, [sys](const State& s) { return s.getNU() ? s.getUDot()[0] : 0.0; }));
+    }
     void build(Sys& S, const Plan& p) {
         Rng mr((uint64_t)std::strtoull(p.cfg("model_seed", "1").c_str(), 0, 10));
         S.forces.setNumberOfThreads(1);
@@ -127,6 +142,7 @@ struct C16 : vf::Engine {
                 else S.cons.push_back(Constraint::Ball(a, Vec3(0.1, 0, 0), b, Vec3(0, 0.2, 0)));
             }
         }
+        addWitnesses(S);
     }
 
     // everything computed from a realized State, as one flat vector
@@ -147,6 +163,7 @@ struct C16 : vf::Engine {
         const Vector& qe = s.getQErr(); for (int i = 0; i < qe.size(); ++i) put(qe[i], "qerr", i);
         const Vector& ue = s.getUErr(); for (int i = 0; i < ue.size(); ++i) put(ue[i], "uerr", i);
         const Vector& ae = s.getUDotErr(); for (int i = 0; i < ae.size(); ++i) put(ae[i], "udoterr", i);
+        { const Vector& ev = s.getEventTriggers(); for (int i = 0; i < ev.size(); ++i) put(ev[i], "eventWitness", i); }
         const Vector_<SpatialVec>& G = S.gravity.getBodyForces(s); for (int b = 0; b < G.size(); ++b) for (int i = 0; i < 3; ++i) put(G[b][1][i], "gravityBodyForce", b);
         S.matter.realizeCompositeBodyInertias(s);
         for (int b = 1; b < (int)S.mob.size(); ++b) { const SpatialInertia& I = S.matter.getCompositeBodyInertia(s, S.mob[b].getMobilizedBodyIndex()); put(I.getMass(), "compositeMass", b); for (int i = 0; i < 3; ++i) put(I.getMassCenter()[i], "compositeCOM", b); }
